@@ -1431,16 +1431,22 @@ impl Stack {
 
     /// Push a message.
     fn push(&self, msg: Message) {
+        #[cfg(feature = "verif-hooks")]
+        verif::yield_point(verif::YieldPoint::Push, self.index, &self.stealers, None, None);
         self.deque.push(msg);
     }
 
     /// Pop a message.
     fn pop(&self) -> Option<Message> {
+        #[cfg(feature = "verif-hooks")]
+        verif::yield_point(verif::YieldPoint::Pop, self.index, &self.stealers, None, None);
         self.deque.pop().or_else(|| self.steal())
     }
 
     /// Steal a message from another queue.
     fn steal(&self) -> Option<Message> {
+        #[cfg(feature = "verif-hooks")]
+        verif::yield_point(verif::YieldPoint::Steal, self.index, &self.stealers, None, None);
         // For fairness, try to steal from index + 1, index + 2, ... len - 1,
         // then wrap around to 0, 1, ... index - 1.
         let (left, right) = self.stealers.split_at(self.index);
@@ -1503,6 +1509,8 @@ impl<'s> Worker<'s> {
                 self.quit_now();
             }
         }
+        #[cfg(feature = "verif-hooks")]
+        self.verif_yield(verif::YieldPoint::Exit);
     }
 
     fn run_one(&mut self, mut work: Work) -> WalkState {
@@ -1705,6 +1713,8 @@ impl<'s> Worker<'s> {
                         // general, this tends to only occur once the search is
                         // approaching termination.
                         let dur = std::time::Duration::from_millis(1);
+                        #[cfg(feature = "verif-hooks")]
+                        self.verif_yield(verif::YieldPoint::Sleep);
                         std::thread::sleep(dur);
                     }
                 }
@@ -1714,11 +1724,15 @@ impl<'s> Worker<'s> {
 
     /// Indicates that all workers should quit immediately.
     fn quit_now(&self) {
+        #[cfg(feature = "verif-hooks")]
+        self.verif_yield(verif::YieldPoint::QuitNow);
         self.quit_now.store(true, AtomicOrdering::SeqCst);
     }
 
     /// Returns true if this worker should quit immediately.
     fn is_quit_now(&self) -> bool {
+        #[cfg(feature = "verif-hooks")]
+        self.verif_yield(verif::YieldPoint::IsQuitNow);
         self.quit_now.load(AtomicOrdering::SeqCst)
     }
 
@@ -1739,12 +1753,109 @@ impl<'s> Worker<'s> {
 
     /// Deactivates a worker and returns the number of currently active workers.
     fn deactivate_worker(&self) -> usize {
+        #[cfg(feature = "verif-hooks")]
+        self.verif_yield(verif::YieldPoint::Deactivate);
         self.active_workers.fetch_sub(1, AtomicOrdering::Acquire) - 1
     }
 
     /// Reactivates a worker.
     fn activate_worker(&self) {
+        #[cfg(feature = "verif-hooks")]
+        self.verif_yield(verif::YieldPoint::Activate);
         self.active_workers.fetch_add(1, AtomicOrdering::Release);
+    }
+}
+
+#[cfg(feature = "verif-hooks")]
+impl<'s> Worker<'s> {
+    /// Verification hook: report a synchronisation point of this worker.
+    fn verif_yield(&self, point: verif::YieldPoint) {
+        verif::yield_point(
+            point,
+            self.stack.index,
+            &self.stack.stealers,
+            Some(self.active_workers.load(AtomicOrdering::SeqCst)),
+            Some(self.quit_now.load(AtomicOrdering::SeqCst)),
+        );
+    }
+}
+
+/// Verification hooks of the parallel walker (feature `verif-hooks` only).
+///
+/// An injectable callback is invoked at every synchronisation point of a
+/// worker thread, *before* the operation is performed. A scheduler installed
+/// through it can park the calling thread and thereby serialise and order
+/// the workers. When no callback is installed this is a no-op.
+#[cfg(feature = "verif-hooks")]
+pub mod verif {
+    use std::sync::{Arc, RwLock};
+
+    /// The synchronisation point a worker is about to execute.
+    #[derive(Clone, Copy, Debug, Eq, PartialEq, Hash)]
+    pub enum YieldPoint {
+        /// Top of `Stack::push`.
+        Push,
+        /// Top of `Stack::pop` (before popping the own deque).
+        Pop,
+        /// Top of `Stack::steal` (before the round over the other deques).
+        Steal,
+        /// Top of `Worker::deactivate_worker`.
+        Deactivate,
+        /// Top of `Worker::activate_worker`.
+        Activate,
+        /// Top of `Worker::is_quit_now`.
+        IsQuitNow,
+        /// Top of `Worker::quit_now`.
+        QuitNow,
+        /// Before the idle sleep in `Worker::get_work`.
+        Sleep,
+        /// After the worker loop in `Worker::run`.
+        Exit,
+    }
+
+    /// What is reported at a yield point.
+    #[derive(Clone, Debug)]
+    pub struct YieldInfo {
+        /// The synchronisation point.
+        pub point: YieldPoint,
+        /// Index of the calling worker's stack.
+        pub worker: usize,
+        /// Current length of every worker's deque.
+        pub deque_lens: Vec<usize>,
+        /// Value of the active worker counter (worker-level points only).
+        pub active_workers: Option<usize>,
+        /// Value of the quit flag (worker-level points only).
+        pub quit_now: Option<bool>,
+    }
+
+    /// The type of the injectable callback.
+    pub type YieldHook = Arc<dyn Fn(&YieldInfo) + Send + Sync>;
+
+    static HOOK: RwLock<Option<YieldHook>> = RwLock::new(None);
+
+    /// Install (or remove) the process-wide yield callback.
+    pub fn set_yield_hook(hook: Option<YieldHook>) {
+        *HOOK.write().unwrap() = hook;
+    }
+
+    pub(super) fn yield_point(
+        point: YieldPoint,
+        worker: usize,
+        stealers: &[super::Stealer<super::Message>],
+        active_workers: Option<usize>,
+        quit_now: Option<bool>,
+    ) {
+        let hook = HOOK.read().unwrap().clone();
+        if let Some(hook) = hook {
+            let deque_lens = stealers.iter().map(|s| s.len()).collect();
+            hook(&YieldInfo {
+                point,
+                worker,
+                deque_lens,
+                active_workers,
+                quit_now,
+            });
+        }
     }
 }
 
